@@ -443,6 +443,14 @@ func (w *Writer) WriteDataEnd(e *DataEnd) error {
 
 // WriteChunkWithIndexes writes a chunk record with the associated message indexes to the output.
 func (w *Writer) WriteChunkWithIndexes(c *Chunk, messageIndexes []*MessageIndex) error {
+	return w.writeChunkWithIndexes(c, messageIndexes, true)
+}
+
+// writeChunkWithIndexes writes a chunk and its message indexes. updateTimes controls whether the
+// chunk's time range is folded into the statistics: chunks flushed by WriteMessage must not be,
+// because WriteMessage already tracks the message times itself and a chunk header cannot tell
+// "no messages" from "messages at time zero".
+func (w *Writer) writeChunkWithIndexes(c *Chunk, messageIndexes []*MessageIndex, updateTimes bool) error {
 	if c.UncompressedSize == 0 {
 		return nil
 	}
@@ -512,11 +520,13 @@ func (w *Writer) WriteChunkWithIndexes(c *Chunk, messageIndexes []*MessageIndex)
 
 	w.Statistics.ChunkCount++
 
-	if w.Statistics.MessageStartTime == 0 || c.MessageStartTime < w.Statistics.MessageStartTime {
-		w.Statistics.MessageStartTime = c.MessageStartTime
-	}
-	if c.MessageEndTime > w.Statistics.MessageEndTime {
-		w.Statistics.MessageEndTime = c.MessageEndTime
+	if updateTimes {
+		if w.Statistics.MessageStartTime == 0 || c.MessageStartTime < w.Statistics.MessageStartTime {
+			w.Statistics.MessageStartTime = c.MessageStartTime
+		}
+		if c.MessageEndTime > w.Statistics.MessageEndTime {
+			w.Statistics.MessageEndTime = c.MessageEndTime
+		}
 	}
 
 	return nil
@@ -563,7 +573,7 @@ func (w *Writer) flushActiveChunk() error {
 		}
 	}
 
-	err = w.WriteChunkWithIndexes(&chunk, messageIndexes)
+	err = w.writeChunkWithIndexes(&chunk, messageIndexes, false)
 	if err != nil {
 		return err
 	}
